@@ -43,8 +43,8 @@ EXPECTED_PROBES = {
     "thorough": ["restored_state_dict", "restored_pickle", "restored_deepcopy", "dirty_target", "lockstep_observation", "rollback_compared", "crash_in_eval_with_caches", "crash_in_training", "copy_independence_checked"],
 }
 EXACT_FAMS = ["default", "default", "kissgp", "sgpr", "rff", "multitask", "hadamard", "grid"]
-OPS_EXACT = {"sub_mode": 0.5, "predict": 5.0, "train": 0.7, "eval": 0.7, "train_steps": 1.5, "set_train_data": 1.0, "perturb": 0.8, "backward": 0.5, "prior_predict": 0.5, "objective": 0.8, "train_call": 0.4, "fantasize": 0.3}
-OPS_VAR = {"sub_mode": 0.5, "predict": 5.0, "train": 0.7, "eval": 0.7, "train_steps": 1.8, "perturb": 0.8, "prior_predict": 0.5, "objective": 0.8, "kl": 0.6, "train_call": 0.8, "set_train_data": 0.4, "fantasize": 0.3}
+OPS_EXACT = {"freeze": 0.5, "sub_mode": 0.5, "predict": 5.0, "train": 0.7, "eval": 0.7, "train_steps": 1.5, "set_train_data": 1.0, "perturb": 0.8, "backward": 0.5, "prior_predict": 0.5, "objective": 0.8, "train_call": 0.4, "fantasize": 0.3}
+OPS_VAR = {"freeze": 0.5, "sub_mode": 0.5, "predict": 5.0, "train": 0.7, "eval": 0.7, "train_steps": 1.8, "perturb": 0.8, "prior_predict": 0.5, "objective": 0.8, "kl": 0.6, "train_call": 0.8, "set_train_data": 0.4, "fantasize": 0.3}
 
 
 def generate(rng, tier, index):
@@ -89,6 +89,14 @@ def generate(rng, tier, index):
         else:
             ops += [driver.gen_op(rng, recipe, "train_steps", allow, p_each)]
         ops.append(gen_crash(rng, how))
+        ops.append(driver.gen_op(rng, recipe, "predict", allow, p_each))
+    if index % 8 == 3:
+        # stratified: parameters held fixed (requires_grad False), copy, then training continues on both
+        fz = driver.gen_op(rng, recipe, "freeze", allow, p_each)
+        fz["flag"] = False
+        ops.append(fz)
+        ops.append(gen_crash(rng, ["pickle", "deepcopy", "state_dict"][(index // 8) % 3]))
+        ops.append(driver.gen_op(rng, recipe, "train_steps", allow, p_each))
         ops.append(driver.gen_op(rng, recipe, "predict", allow, p_each))
     if index % 8 == 5:
         # stratified rollback pattern: the state at the save point differs from the later state only in part
@@ -161,6 +169,35 @@ def compare_state(a, b, tol):
         ok, diff, scale = compare.tensor_diff(x.detach(), y.detach())
         if not ok or not diff <= tol * scale:
             return k, "state_dict[%s] differs by %.3g (scale %.3g)" % (k, diff, scale)
+    return None
+
+
+def kinds(model):
+    """What kind of thing every entry of the model's state is: (name, parameter/buffer, dtype, requires_grad), plus the
+    partition of parameter names into groups referring to one and the same tensor (tied parameters)."""
+    rows = []
+    groups = {}
+    for n, p in model.named_parameters(remove_duplicate=False):
+        rows.append((n, "parameter" if isinstance(p, torch.nn.Parameter) else type(p).__name__, str(p.dtype), bool(p.requires_grad)))
+        groups.setdefault(id(p), []).append(n)
+    for n, b in model.named_buffers(remove_duplicate=False):
+        rows.append((n, "buffer", str(b.dtype), bool(b.requires_grad)))
+    ties = sorted(tuple(sorted(g)) for g in groups.values() if len(g) > 1)
+    return sorted(rows), ties
+
+
+def compare_kinds(a, b):
+    """Returns (class key, detail) or None."""
+    (ra, ta), (rb, tb) = kinds(a), kinds(b)
+    if ra != rb:
+        da, db = dict((r[0], r[1:]) for r in ra), dict((r[0], r[1:]) for r in rb)
+        for n in sorted(set(da) | set(db)):
+            if da.get(n) != db.get(n):
+                x, y = da.get(n), db.get(n)
+                what = "presence" if x is None or y is None else "kind" if x[0] != y[0] else "dtype" if x[1] != y[1] else "requires_grad"
+                return what, "%s: original %s, copy %s" % (n, x, y)
+    if ta != tb:
+        return "ties", "tied parameter groups differ: original %s, copy %s" % (ta[:3], tb[:3])
     return None
 
 
@@ -238,6 +275,9 @@ def restore(out, i, src_live, op, recipe, tol, phase):
         if driver.module_modes(src) != driver.module_modes(new):
             diff = [n for (n, a), (_, b) in zip(driver.module_modes(src), driver.module_modes(new)) if a != b]
             out.violate("mode_not_carried", i, "%s changed the training flag of submodules %s" % (how, diff[:4]), **cls)
+        dk = compare_kinds(src, new)
+        if dk:
+            out.violate("kind_not_carried", i, "%s: %s" % (how, dk[1]), what=dk[0], key=dk[1].split(":")[0].rsplit(".", 1)[-1], **cls)
         independence_check(out, i, src_live, how, op, recipe, tol, cls)
         ea, eb = extra_state(src), extra_state(new)
         for k in sorted(set(ea) | set(eb)):
@@ -296,6 +336,11 @@ def restore(out, i, src_live, op, recipe, tol, phase):
         return None
     # modes are not durable state: the user puts the restored model (and any submodule that was switched on its own)
     # into the modes of the original; parents first, so that children end up with their own flags
+    # ... and neither is requires_grad (a state_dict holds values only): the user freezes the same parameters again
+    src_rg = dict((n, p.requires_grad) for n, p in src.named_parameters())
+    for n, p in new.named_parameters():
+        if n in src_rg and p.requires_grad != src_rg[n]:
+            p.requires_grad_(src_rg[n])
     driver.set_mode(restored, src.training)
     src_modes = dict((n, m.training) for n, m in src.named_modules())
     for n, m in new.named_modules():
